@@ -1150,7 +1150,11 @@ class C07(ExpectSpec):
                   'document over the safe alphabet renders to exactly <p>escaped line</p>, any length, session unchanged), C07_plain (a paragraph text over the plain alphabet -- the code points that, by the verified first-set '
                   'analysis of the *generated* replacement, quote and placeholder regexes, can start no match -- renders to exactly its escape, '
                   'for text of any length), C07_frozen_escape (an escaped or matched replacement becomes a finished fragment whose text is not '
-                  'scanned again: fragReplacements never searches done fragments), plus the escape lemmas. The full product grammar (quotes '
+                  'scanned again: fragReplacements never searches done fragments), plus the escape lemmas; C07_emphasis with '
+                  'C07_emphasis_match_unique (real markup: for every pre, body, post over the plain alphabet, body starting and ending with a '
+                  'non-space, spans.render of pre*body*post is escape pre <em> escape body </em> escape post -- the quote match is pinned down '
+                  'with the exact regex semantics: every derivation of the generated quote pattern on *body*post ends in one state, and the '
+                  'complete matcher finds it). The full product grammar (quotes '
                   'x replacements x adjacency) is decided by the generator-predicted-HTML oracle and full-HTML correspondence, not proved.')
     rule = ('paragraphs from an inline grammar (words, isolated specials, 7 built-in + 2 defined quotes nested by differing delimiter to '
             'depth 3, the replacement forms with URL/caption words) in modes 0,1,4,9; expected HTML built with the AST; '
